@@ -60,7 +60,38 @@ CLASS_OF = {
 ENTRY_OF = {"sugar": "subprocess", "sugar_extended": "subprocess", "csugar": "pycsugar", "enigma_csp": "enigma_csp", "cspuz_core": "cspuz_core"}
 
 
+def generate_big(rng, tier):
+    """Descriptions of programs too large to enumerate (12-30 variables): the peer only replies from
+    a script, and the emission oracle compares denotations on sampled assignments (the witness,
+    boundary assignments, neighbours of the witness, random ones) instead of on all of them."""
+    from sim import c01_session
+
+    big = c01_session.generate_big(rng, tier)
+    backend = rng.choice(NAMES)
+    decls, cs = big["decls"], big["cs"]
+    pins = list(big["pins"])
+    for _ in range(24):
+        pins.append(refsem.gen_witness(rng, decls))
+    ops = []
+    half = max(1, len(cs) // 2)
+    if cs[:half]:
+        ops.append({"op": "ensure", "cs": cs[:half], "nest": rng.randint(0, 7)})
+    if cs[half:]:
+        ops.append({"op": "ensure", "cs": cs[half:], "nest": rng.randint(0, 7)})
+    ids = [i for i in range(len(decls)) if rng.random() < rng.choice([0.3, 1.0])]
+    ops.append({"op": "add_key", "ids": ids, "form": 0})
+    ops.append({"op": "find_answer" if backend == "sugar" or rng.random() < 0.4 else "solve"})
+    return {
+        "prop": ID, "backend": backend, "mode": "scripted", "direct": False, "big": True, "pins": pins,
+        "policy": {"name": "lexmin"}, "fmt": {"order": rng.choice(["java", "byid", "shuffled"]), "seed": rng.randrange(1000), "final_newline": rng.random() < 0.7},
+        "script_seed": rng.randrange(10**6), "decls": decls, "timeout": None, "psutil": False, "stall": None, "shadow": False,
+        "reuse_backend": False, "graph_api": False, "ops": ops,
+    }
+
+
 def generate(rng, tier, index):
+    if rng.random() < 0.04:
+        return generate_big(rng, tier)
     backend = rng.choice(NAMES)
     mode = rng.choices(["honest", "scripted"], weights=[6, 4])[0]
     direct = rng.random() < 0.3
@@ -144,7 +175,9 @@ def valid(sc):
         for d in decls:
             if d["t"] == "i" and d["lo"] > d["hi"]:
                 return False
-        if refsem.domain_product(decls) > 4096:
+        if refsem.domain_product(decls) > 4096 and not sc.get("big"):
+            return False
+        if sc.get("big") and (sc["mode"] != "scripted" or not sc.get("pins") or any(len(p) != len(decls) for p in sc["pins"])):
             return False
         if sc.get("direct"):
             ids = sc["ids"]
@@ -277,7 +310,9 @@ def check_emission(res, sc, tag, n_op, entry, text, prog, decls, ids, constraint
 
     n_true = 0
     n_all = 0
-    for a in itertools.product(*refsem.domains(decls)):
+    # all assignments of the declared domains - or, for programs too large to enumerate, the sampled ones
+    space = [tuple(p) for p in sc["pins"]] if sc.get("big") else itertools.product(*refsem.domains(decls))
+    for a in space:
         w = [None] * nwire
         for i, p in enumerate(wire_pos):
             w[p] = a[i]
@@ -595,7 +630,13 @@ def shrink_candidates(sc):
         c = dict(sc, decls=decls[:-1])
         if sc.get("direct"):
             c["ids"] = sc["ids"][:-1]
+        if sc.get("big"):
+            c["pins"] = [p[:-1] for p in sc["pins"]]
         yield c
+    if sc.get("big"):
+        for p2 in core.ddmin_list(sc["pins"]):
+            if p2:
+                yield dict(sc, pins=p2)
     if sc.get("direct"):
         yield dict(sc, direct=False)
         srt = sorted(sc["ids"])
